@@ -34,6 +34,8 @@ SETUPS_QUICK = [
     # a free first member tied to a fixed second member: the whole group is fixed, although the
     # shared tf.Variable keeps the first member's trainable flag
     (("fix", "c2", None), ("tie_real", "c1r", "c2r")),
+    # two tie groups merged by a third tie through non-head members
+    (("tie_real", "x", "y"), ("tie_real", "u", "v"), ("tie_real", "y", "v")),
 ]
 SETUPS_THOROUGH = SETUPS_QUICK + [
     (("fix", "y", 0.8), ("tie", "x", "y")),
@@ -132,6 +134,10 @@ class World:
                 "c2": Variable("c2", cplx=True, vm=vm, polar=False if not any(s[0] in ("tiec", "tie_real") for s in setup) else True),
                 "g": Variable("g", shape=[2], cplx=True, vm=vm),
             }
+        if any("u" in s[1:] or "v" in s[1:] for s in setup):
+            # two more plain reals (only in the set-ups that name them)
+            self.V["u"] = Variable("u", vm=vm, value=-0.3)
+            self.V["v"] = Variable("v", vm=vm, value=2.2)
         vm.set_all({"c1r": 1.5, "c1i": 0.7, "c2r": 0.4, "c2i": -0.8, "g_1r": 0.9, "g_1i": -2.1})
         if any(s[0] == "tiec" for s in setup):
             vm.set_all({"c2r": 0.6, "c2i": 2.4})
@@ -610,7 +616,7 @@ def run(tier, seed, only=None):
         assumptions=[
             "alphabet values are a small finite menu; other values are not explored",
             "fix/free, tie and bound are applied only in the set-up phase, in configuration order (as the property's quantifier says)",
-            "masks / temp_params blocks name real scalars only; at most one block open at a time",
+            "BFS: masks / temp_params blocks name real scalars only, at most one block open at a time; masks naming complex components: scripted product (3 prefixes x 5 masks x 10 coordinate operations), oracle on the stored values after the block",
             "owned RNG: tf.random.uniform/normal and numpy.random.chisquare answered from a fixed script",
             "equal canonical states are merged (canonical form = all fields VarsManager methods read)",
         ],
@@ -665,6 +671,9 @@ def run(tier, seed, only=None):
                            "traces_validated_against_impl == transitions",
         })
         rep.counts["transitions"] = transitions
+    if only is None or "mask_complex" in only:
+        for r in pool.run_items("mc.props.C16", "mask_complex_work", [{}]):
+            rep.merge(r)
     if only is None or "bound" in only:
         items = [{"a": a, "b": b, "func": f} for a, b, f in BOUNDS]
         for r in pool.run_items("mc.props.C16", "bound_work", items):
@@ -672,7 +681,60 @@ def run(tier, seed, only=None):
     return rep
 
 
+# ---------------------------------------------------------------- coordinate changes inside a mask that names a complex component
+MASKS_C = [(("c1r", 0.0),), (("c1i", 0.3),), (("c1r", 0.0), ("c1i", 0.3)), (("c2r", 2.5), ("x", 9.0)), (("g_1r", 0.0),)]
+COORD_OPS = [("rp2xy", "c1"), ("xy2rp", "c1"), ("rp2xy_all",), ("xy2rp_all",), ("std_polar", "c1"), ("std_polar_all",), ("standard_complex",),
+             ("trans_params", True), ("trans_params", False), ("roundtrip_dic",)]
+
+
+def _stored_z(w):
+    """complex values from the STORED numbers (not through the mask) and the coordinate flags"""
+    vm = w.vm
+    out = {}
+    for n, polar in vm.complex_vars.items():
+        a, b = float(vm.variables[n + "r"].numpy()), float(vm.variables[n + "i"].numpy())
+        out[n] = a * complex(math.cos(b), math.sin(b)) if polar else complex(a, b)
+    return out
+
+
+def mask_complex_work(payload):
+    res = Res()
+    for pre in ((), (("rp2xy_all",),), (("set", "c1r", -1.5),)):
+        for mask in MASKS_C:
+            for op in COORD_OPS:
+                w = World(())
+                for o in pre:
+                    apply_op(w, o, check=False)
+                z0 = _stored_z(w)
+                reals0 = {n: float(w.vm.variables[n].numpy()) for n in ("x", "y")}
+                case = {"part": "mask_complex", "pre": [list(o) for o in pre], "mask": [list(m) for m in mask], "op": list(op)}
+                res.case(nontrivial_key=(pre, mask, op), outcome=op[0])
+                try:
+                    with w.vm.mask_params(dict(mask)):
+                        if op[0] == "roundtrip_dic":
+                            pass  # reading through a mask and writing back is documented to store the view: not claimed here
+                        else:
+                            apply_op(w, op, check=False)
+                except Exception as e:
+                    res.violation("mask-complex:exception|%s" % op[0], "%r inside mask %r raised %s: %s" % (op, mask, type(e).__name__, str(e)[:160]), case)
+                    continue
+                z1 = _stored_z(w)
+                for n in z0:
+                    if abs(z1[n] - z0[n]) > 1e-12 * max(1.0, abs(z0[n])):
+                        res.violation("mask-complex:value-changed|%s" % op[0], "stored complex value of %s changed %r -> %r by %r performed inside mask_params(%r) (after %r)" % (n, z0[n], z1[n], op, dict(mask), pre), case)
+                        break
+                for n, v in reals0.items():
+                    if float(w.vm.variables[n].numpy()) != v:
+                        res.violation("mask-complex:real-changed|%s" % op[0], "stored value of %s changed %r -> %r by %r inside mask_params(%r)" % (n, v, float(w.vm.variables[n].numpy()), op, dict(mask)), case)
+                if w.vm.mask_vars:
+                    res.violation("mask-complex:mask-left", "mask still installed after the block: %r" % (dict(w.vm.mask_vars),), case)
+    return res.done()
+
+
 def replay(case):
+    if case.get("part") == "mask_complex":
+        global MASKS_C, COORD_OPS
+        return [v for v in mask_complex_work({})["viol"] if v["case"]["op"] == case["op"]]
     if "hist" in case:
         hist = [_t(o) for o in case["hist"]]
         setup = _t(case["setup"])
